@@ -582,7 +582,7 @@ open Nx.L1 Nx.Prudp in
     receiver on substream `sub`. A history is any sequence of: an application `send` at either end — as one step, or fragment
     by fragment (`beginA`, `fragA`, …) with anything either end or the network does in between —, a keep-alive of either end, the delivery (through `handle`: gates, acknowledgement, window, release loop) of ANY packet either end has ever
     emitted to the other end — any order, any number of times, never = loss —, any acknowledgement arriving at either
-    end, a retransmission timer of either end firing. In every state such a history reaches, what B's application can read
+    end, a retransmission timer of either end firing, any packet with a signature its receiver does not expect at either end. In every state such a history reaches, what B's application can read
     is a prefix of what A's application sent AND what A's application can read is a prefix of what B's sent. The step
     hypotheses (`Duplex.opOk`) are those of `Sys.opOk` for each view; for a delivery that is the half-window condition alone
     (`delivery_hypothesis_is_the_window`). -/
@@ -642,7 +642,7 @@ theorem delivery_hypothesis_is_the_window {env : Env} {sub : Nat} {ci : Cipher} 
 
 /-! non-vacuity: two established endpoints; A sends a two-fragment message fragment by fragment (B's send and a second send
     of A, which finds the lock taken, fall between the fragments), B two messages; the packets of both directions
-    are delivered out of order, one twice; a keep-alive of A, an acknowledgement arriving at A; the run meets `Duplex.runOk`,
+    are delivered out of order, one twice; a forged DISCONNECT arrives at B and a forged DATA packet at A; a keep-alive of A, an acknowledgement arriving at A; the run meets `Duplex.runOk`,
     both endpoints are `Established` towards each other at the start, and at the end each application has exactly what the
     other one sent -/
 open Nx.L1 Nx.Prudp in
@@ -651,7 +651,9 @@ example :
     let a := { Conn.new env (some 1) 1 2 3 ("10.0.0.2", 1) 15 10 ("10.0.0.1", 2) 1 10 with state := STATE_CONNECTED, remoteSessionId := some 6 }
     let b := { Conn.new env (some 1) 4 5 6 ("10.0.0.1", 2) 1 10 ("10.0.0.2", 1) 15 10 with state := STATE_CONNECTED, remoteSessionId := some 3 }
     let ack : Packet := { type := TYPE_DATA, flags := FLAG_ACK, packetId := 1, sessionId := 6, signature := some [1] }
-    let ops := [DOp.beginA 0 [1, 2, 3], .fragA 0, .sendB 0 [7, 7], .sendA 0 [5], .fragA 1, .toB 1 1, .toA 1 0, .toB 2 0, .toB 3 1, .pingA 4, .toB 4 2,
+    let forgedB : Packet := { type := TYPE_DISCONNECT, flags := 6, packetId := 1, sessionId := 3, signature := some [99] }
+    let forgedA : Packet := { type := TYPE_DATA, flags := 14, packetId := 1, sessionId := 6, payload := [66], signature := some [98] }
+    let ops := [DOp.beginA 0 [1, 2, 3], .fragA 0, .sendB 0 [7, 7], .sendA 0 [5], .injectB 1 forgedB, .fragA 1, .toB 1 1, .toA 1 0, .injectA 1 forgedA, .toB 2 0, .toB 3 1, .pingA 4, .toB 4 2,
                 .beginB 5 [8], .fragB 5, .toA 6 1, .ackToA 6 ack, .toA 7 0]
     let d0 : Duplex := { ab := Sys.fresh a b, ba := Sys.fresh b a }
     (establishedB 0 1 a b && establishedB 0 1 b a) = true ∧
